@@ -622,9 +622,9 @@ def translator_tie(chk, area, tie_module, tie_theorems):
     a = c2lean.AREAS[area]
     try:
         txt, report = c2lean.translate(area, REPO)
-    except c2lean.Unsupported as e:
+    except Exception as e:      # Unsupported construct, or any failure of the translator on changed code
         for t in tie_theorems:
-            chk.theorems[t] = (False, "translator could not read the source: %s" % e)
+            chk.theorems[t] = (False, "translator could not read the source (%s): %s" % (type(e).__name__, e))
         return
     chk.extra.setdefault("translator", {})[area] = report
     d = mktmp("tie")
